@@ -185,3 +185,98 @@ def untril(vals, n):
             m[i, j] = m[j, i] = vals[k]
             k += 1
     return m
+
+
+# ---- Molden (standard encoding: contraction coefficients of normalised primitives, every function normalised) -----------
+
+def read_molden(text):
+    """Atoms (bohr), shells [(icenter, l, kind, exponents, coefficients)] and orbitals [(spin, energy, occupation, sym, vector)]."""
+    from ref import units, vendors
+
+    lines = text.splitlines()
+    sections, cur = {}, None
+    for ln in lines:
+        s = ln.strip()
+        if s.startswith("["):
+            name = s[1 : s.index("]")].strip().upper()
+            cur = name
+            sections[cur] = [s[s.index("]") + 1 :].strip()]
+        elif cur is not None:
+            sections[cur].append(ln)
+    if "ATOMS" not in sections or "GTO" not in sections or "MO" not in sections:
+        raise Unsupported("missing [Atoms], [GTO] or [MO]")
+    unit = sections["ATOMS"][0].upper()
+    scale = units.angstrom if unit.startswith("ANGS") else 1.0
+    atoms = []
+    for ln in sections["ATOMS"][1:]:
+        w = ln.split()
+        if len(w) >= 6:
+            atoms.append((int(w[2]), [float(w[3]) * scale, float(w[4]) * scale, float(w[5]) * scale]))
+    pure = {2: False, 3: False, 4: False, 5: False}
+    if "5D" in sections or "5D7F" in sections:
+        pure[2] = pure[3] = True
+    if "5D10F" in sections:
+        pure[2] = True
+    if "7F" in sections:
+        pure[3] = True
+    if "9G" in sections:
+        pure[4] = pure[5] = True
+    shells = []
+    body = sections["GTO"][1:]
+    i = 0
+    while i < len(body):
+        w = body[i].split()
+        if not w:
+            i += 1
+            continue
+        ic = int(w[0]) - 1
+        i += 1
+        while i < len(body) and body[i].split():
+            w = body[i].split()
+            label, nprim = w[0].lower(), int(w[1])
+            prims = [[_f(x) for x in body[i + 1 + k].split()] for k in range(nprim)]
+            i += 1 + nprim
+            if label == "sp":
+                shells.append((ic, 0, "c", [p[0] for p in prims], [p[1] for p in prims]))
+                shells.append((ic, 1, "c", [p[0] for p in prims], [p[2] for p in prims]))
+            else:
+                l = vendors.ANGMOM.index(label)
+                shells.append((ic, l, "p" if pure.get(l, False) else "c", [p[0] for p in prims], [p[1] for p in prims]))
+    nbasis = sum(vendors.nfunc(l, k) for _ic, l, k, _e, _c in shells)
+    mos, cur = [], None
+    for ln in sections["MO"][1:]:
+        s = ln.strip()
+        if not s:
+            continue
+        if "=" in s:
+            key, val = [t.strip() for t in s.split("=", 1)]
+            if key.lower() == "sym" or cur is None or (cur["vec_started"]):
+                if cur is None or cur["vec_started"]:
+                    cur = {"sym": None, "ene": None, "spin": "Alpha", "occ": None, "vec": np.zeros(nbasis), "vec_started": False}
+                    mos.append(cur)
+            k = key.lower()
+            if k == "sym":
+                cur["sym"] = val
+            elif k == "ene":
+                cur["ene"] = _f(val)
+            elif k == "spin":
+                cur["spin"] = val.capitalize()
+            elif k == "occup":
+                cur["occ"] = _f(val)
+        else:
+            w = s.split()
+            cur["vec"][int(w[0]) - 1] = _f(w[1])
+            cur["vec_started"] = True
+    return {"atnums": [a[0] for a in atoms], "xyz": np.array([a[1] for a in atoms]), "shells": shells,
+            "mos": [(i + 1, m["occ"], m["ene"], m["vec"]) for i, m in enumerate(mos)], "spins": [m["spin"].lower() for m in mos], "syms": [m["sym"] for m in mos]}
+
+
+def molden_orbitals_at(table, points):
+    from ref import vendors
+
+    for _ic, l, k, _e, _c in table["shells"]:
+        if (l, k) not in vendors.MOLDEN:
+            raise Unsupported(f"shell {l}{k}")
+    gshells = [(ic, [l], [k], e, [[c] for c in co]) for ic, l, k, e, co in table["shells"]]
+    bv = gto.eval_basis(gshells, vendors.MOLDEN, table["xyz"], points)
+    return np.array([m[3] for m in table["mos"]]) @ bv
